@@ -5,7 +5,7 @@
    preimage of another committed digest string): [occurs]. *)
 From Coq Require Import List String ZArith NArith Bool.
 Import ListNotations.
-From VF Require Import C18.Model C18.Proofs C18.Exact C18.Corr.
+From VF Require Import C18.Model C18.Proofs C18.Exact C18.Hiding C18.Corr.
 Open Scope string_scope.
 Open Scope list_scope.
 
@@ -45,6 +45,22 @@ Proof.
   intro Ho. apply HI in Ho as (d0 & Hd0 & He). apply digest_inj in He. subst. contradiction.
 Qed.
 Print Assumptions rejects_unissued.
+
+(* the same about ISSUED SD-JWTs, without the hypothesis: the issuer model's payload commits to its own disclosure
+   list only (every digest string in it is the digest of an issued disclosure or a decoy: Exact.issued_commitments),
+   so a presentation of it that contains any disclosure text the issuer did not emit — foreign, altered in any
+   part, re-encoded, a decoy preimage — is rejected, for every claim tree and option set *)
+Theorem rejects_unissued_issued : forall o claims payload ds vo p d,
+  alg_ok (o_alg o) -> clean (VObj claims) = true -> issue o claims = Ok (payload, ds) ->
+  p_payload p = payload -> In d (p_discs p) -> ~ In d ds -> is_ok (verify vo p) = false.
+Proof. exact reject_unissued_issued. Qed.
+Print Assumptions rejects_unissued_issued.
+
+Theorem issued_payload_commits_to_issued_only : forall o claims payload ds,
+  clean (VObj claims) = true -> issue o claims = Ok (payload, ds) ->
+  forall g, isdig g -> occurs g payload -> (exists d0, In d0 ds /\ g = digest (o_alg o) d0) \/ dig_e g = 0%N.
+Proof. exact issued_commitments. Qed.
+Print Assumptions issued_payload_commits_to_issued_only.
 
 (* DUPLICATED *)
 Theorem rejects_duplicated : forall vo p, ~ NoDup (p_discs p) -> is_ok (verify vo p) = false.
@@ -123,6 +139,8 @@ Definition o2 := {| o_v5 := false; o_alg := 256; o_structured := false; o_decoys
 Definition o5 := {| o_v5 := true; o_alg := 384; o_structured := true; o_decoys := 0; o_nonsd := [];
                     o_always := []; o_recursive := [[SKey "addr"]]; o_iss := "iss"; o_cnf := Some 1%Z |}.
 Definition vo0 := {| vo_required := false; vo_nonce := ""; vo_aud := "" |}.
+Definition claims5 : list (string * val) :=
+  [("name", VStr "Ann"); ("addr", VObj [("city", VStr "X"); ("zip", VNum 7)]); ("langs", VArr [VStr "de"; VStr "en"])].
 
 Theorem disclose_exact_refuted :
   (exists o claims sel out, flow o claims sel vo0 None = Ok out /\ equiv out (reveal o sel claims) = false) /\
@@ -173,6 +191,58 @@ Theorem disclose_output_pass_partial : forall o claims sel payload ds,
 Proof. exact exact_output. Qed.
 Print Assumptions disclose_output_pass_partial.
 
+(* ---- nothing reveals an undisclosed claim ----
+   The observer (verifier, eavesdropper) knows the signed payload and the presented disclosure texts; [derivable]
+   closes that under taking JSON values apart, reading the parts of a disclosure text, assembling and hashing
+   disclosure texts; a digest string is never opened (ideal hash).
+   hiding_salts: the only salts it can derive are those of the disclosures it was given — for an issued SD-JWT and
+   a selection, the salt of every unselected disclosure stays underivable, so the digest of that disclosure can
+   neither be opened nor confirmed by guessing the value (the guess needs the salt).
+   hiding_values: every JSON value it can derive lies in the clear part of the payload or of a presented
+   disclosure ([sub]: reachable through arrays and objects only) or is a digest string: the value of an undisclosed
+   claim, which the issuer placed below Hash(salt, name, value) only, is not among them unless the same value is
+   also visible or disclosed elsewhere. *)
+Theorem hiding_salts : forall payload ds sel d,
+  In d ds -> memp (d_salt d) sel = false ->
+  ~ derivable (knowledge payload (choose sel ds)) (TSalt (d_salt d)).
+Proof.
+  intros payload ds sel d Hd Hs H. apply derivable_salts in H as (d' & Hd' & He).
+  apply filter_In in Hd' as [_ Hsel]. rewrite He in Hsel. congruence.
+Qed.
+Print Assumptions hiding_salts.
+
+Theorem hiding_values : forall payload ds x,
+  derivable (knowledge payload ds) (TVal x) ->
+  sub x payload \/ (exists d, In d ds /\ sub x (d_val d)) \/ (exists a c e s n v, x = VDig a c e s n v).
+Proof. exact derivable_values. Qed.
+Print Assumptions hiding_values.
+
+(* non-vacuity: a chosen claim IS derivable, its digest is recomputable; the unchosen sibling's salt is not *)
+Example hiding_example :
+  match issue o5 claims5 with
+  | Ok (payload, ds) =>
+      let sel := [[SKey "addr"]; [SKey "addr"; SKey "city"]] in
+      let K := knowledge payload (choose sel ds) in
+      derivable K (TVal (VStr "X")) /\ derivable K (TSalt [SKey "addr"; SKey "city"]) /\
+      ~ derivable K (TSalt [SKey "addr"; SKey "zip"]) /\ memd (mk 3 [SKey "addr"; SKey "zip"] "zip" (VNum 7)) ds = true
+  | _ => False
+  end.
+Proof.
+  destruct (issue o5 claims5) as [[payload ds]| | |] eqn:E; try (vm_compute in E; discriminate).
+  assert (Hc : memd (mk 3 [SKey "addr"; SKey "city"] "city" (VStr "X")) ds = true /\
+               memd (mk 3 [SKey "addr"; SKey "zip"] "zip" (VNum 7)) ds = true)
+    by (vm_compute in E; inversion E; subst; vm_compute; split; reflexivity).
+  destruct Hc as [Hc Hz]. apply memd_In in Hc. apply memd_In in Hz.
+  assert (Hk : derivable (knowledge payload (choose [[SKey "addr"]; [SKey "addr"; SKey "city"]] ds))
+                 (TDisc (mk 3 [SKey "addr"; SKey "city"] "city" (VStr "X")))).
+  { apply dv_known. right. apply in_map. apply filter_In. split; [assumption|reflexivity]. }
+  repeat split.
+  - exact (dv_val _ _ Hk).
+  - exact (dv_salt _ _ Hk).
+  - exact (hiding_salts payload ds [[SKey "addr"]; [SKey "addr"; SKey "city"]] _ Hz eq_refl).
+  - apply memd_In. assumption.
+Qed.
+
 (* what the issuer emits is accepted by the holder: REFUTED for v5 with decoy digests (the decoy salts are put
    into the disclosure list; known finding), while the same claims without decoys, and v2 with decoys, parse *)
 Definition issue_parse (o : iopts) (claims : list (string * val)) : res (list (string * val)) :=
@@ -189,8 +259,6 @@ Proof. vm_compute. repeat split. Qed.
 Print Assumptions issue_parseable_refuted.
 
 (* ---- non-vacuity: concrete flows through the same functions ---- *)
-Definition claims5 : list (string * val) :=
-  [("name", VStr "Ann"); ("addr", VObj [("city", VStr "X"); ("zip", VNum 7)]); ("langs", VArr [VStr "de"; VStr "en"])].
 
 (* recursive object + array elements, holder binding required and right: output = visible + chosen *)
 Example disclose_exact_example :
@@ -204,6 +272,12 @@ Example disclose_exact_example :
   | _ => False
   end.
 Proof. vm_compute. split; reflexivity. Qed.
+
+Example disclose_exact_guard_met :
+  let sel := [[SKey "addr"]; [SKey "addr"; SKey "city"]; [SKey "langs"; SIdx 1]] in
+  alg_ok (o_alg o5) /\ clean (VObj claims5) = true /\ forallb site_path sel = true /\
+  akept5 o5 sel false [] (VObj claims5) = true /\ is_ok (issue o5 claims5) = true.
+Proof. cbn zeta. split; [right; left; reflexivity|]. vm_compute. repeat split. Qed.
 
 (* the same SD-JWT: a child without its parent, a foreign, a duplicated, an altered disclosure, a wrong nonce *)
 Example rejections_example :
